@@ -125,7 +125,7 @@ fn merge_all_threads(c: &Case, order: &[usize]) -> Case {
     }
     // the merged thread keeps the tightest CPU restriction any of the merged threads had
     let cpu = order.iter().filter_map(|t| c.cpus.get(*t).copied()).filter(|x| *x > 0).min().unwrap_or(0);
-    Case { threads: vec![calls], churn: vec![vec![]], start: 0, switches: vec![], jumps: vec![jumps], depths: vec![depths], cpus: vec![cpu], entropy: c.entropy, kill_step: c.kill_step, prefix: c.prefix.clone(), next: c.next.clone() }
+    Case { threads: vec![calls], churn: vec![vec![]], start: 0, switches: vec![], jumps: vec![jumps], depths: vec![depths], cpus: vec![cpu], entropy: c.entropy, kill_step: c.kill_step, io_fault: c.io_fault, power: c.power, prefix: c.prefix.clone(), next: c.next.clone() }
 }
 
 fn merge_two(c: &Case, a: usize, b: usize) -> Case {
@@ -209,6 +209,13 @@ pub fn minimise(
         }
         false
     };
+
+    // the run without its injected I/O errors, if the violation does not need them
+    if best.io_fault != 0 && best.next.is_none() {
+        let mut c = best.clone();
+        c.io_fault = 0;
+        try_batch(&mut best, &mut best_res, &mut st, vec![c], oc);
+    }
 
     // like try_batch, but "smaller" = fewer threads first (merging keeps the number of calls)
     let try_batch_any = |best: &mut Case, best_res: &mut RunResult, st: &mut MinStats, cands: Vec<Case>, oc: &mut OracleCache| -> bool {
@@ -514,6 +521,30 @@ pub fn minimise_chain(case: Case, rr: RunResult, oc: &mut OracleCache, workers: 
         if phases[i].switches.iter().any(|s| s.to == crate::sim::KILL) {
             let mut cand = phases.clone();
             cand[i].switches.retain(|s| s.to != crate::sim::KILL);
+            let c = Case::from_phases(&cand, cand.len() - 1);
+            let r = run_cases(&[c.clone()], oc, workers, case_timeout(&c)).pop().flatten();
+            total.candidates += 1;
+            if let Some(r) = r {
+                if class.is_some() && r.violation_class() == class {
+                    phases = cand;
+                    best_rr = r;
+                    total.accepted += 1;
+                }
+            }
+        }
+    }
+    // 4. I/O fault plans and power losses that are not needed
+    for i in 0..phases.len() {
+        for what in 0..2 {
+            if (what == 0 && phases[i].io_fault == 0) || (what == 1 && phases[i].power == 0) {
+                continue;
+            }
+            let mut cand = phases.clone();
+            if what == 0 {
+                cand[i].io_fault = 0;
+            } else {
+                cand[i].power = 0;
+            }
             let c = Case::from_phases(&cand, cand.len() - 1);
             let r = run_cases(&[c.clone()], oc, workers, case_timeout(&c)).pop().flatten();
             total.candidates += 1;
